@@ -148,7 +148,11 @@ def rewrite_files(
     """Rewrite project files, updating each with the new version."""
     fobj: typ.IO[str]
 
-    for file_data in iter_rewritten(file_patterns, new_vinfo):
+    # Check every file (existence, pattern matches) before the first one is written,
+    # so that a failure cannot leave the project half updated.
+    rewritten = list(iter_rewritten(file_patterns, new_vinfo))
+
+    for file_data in rewritten:
         new_content = file_data.line_sep.join(file_data.new_lines)
         with io.open(file_data.path, mode="wt", newline='', encoding="utf-8") as fobj:
             fobj.write(new_content)
